@@ -531,4 +531,24 @@ def assemble_walk(repo: Repo, prop: str = PROP, rule: str = "C06.ASSEMBLE-WALK")
 
 assemble_walk.rule_id = "C06.ASSEMBLE-WALK"
 
-RULES = [sections, side_tables, vertex_ownership, assemble_walk, patch_state, delete_skip, geometry_label, precision]
+def user_state_survives(repo: Repo) -> RuleRun:
+    """'exactly the patches, merges ... the user declared': clear() and backport() empty what assemble() fills and nothing else (merged pairs, patch settings, the deleted set). Same rule as C12.CLEAR-COMPLETE."""
+    from ..report import rebrand
+    from . import c12
+
+    return rebrand(c12.clear_complete(repo), PROP, "C06.USER-STATE-SURVIVES")
+
+
+user_state_survives.rule_id = "C06.USER-STATE-SURVIVES"
+
+def grading_form(repo: Repo) -> RuleRun:
+    """'hex entries ... with counts and gradings': simpleGrading is written only when all four wires of every axis carry the same grading. Same rule as C04.SIMPLE-ONLY-IF-EQUAL."""
+    from ..report import rebrand
+    from . import c04
+
+    return rebrand(c04.simple_only_if_equal(repo), PROP, "C06.GRADING-FORM")
+
+
+grading_form.rule_id = "C06.GRADING-FORM"
+
+RULES = [sections, side_tables, vertex_ownership, assemble_walk, patch_state, delete_skip, geometry_label, precision, user_state_survives, grading_form]
